@@ -254,3 +254,37 @@ func BackpressuredPeerLoops() int {
 	}
 	return n
 }
+
+// TransportGoroutines returns the goroutines of gateway/siamux multiplexers
+// (read loop, write loop, stream pruner). The lab closes every multiplexer it
+// creates itself, so at a quiescent point - every component closed, every
+// harness peer gone - the remaining ones belong to transports that coreutils
+// created and never closed.
+func TransportGoroutines() []Goroutine {
+	var out []Goroutine
+	for _, g := range AllGoroutines() {
+		if strings.HasPrefix(g.CreatedBy, "go.sia.tech/mux/v3.newMux") || g.Has("go.sia.tech/mux/v3.(*Mux).readLoop") || g.Has("go.sia.tech/mux/v3.(*Mux).writeLoop") {
+			out = append(out, g)
+		}
+	}
+	return out
+}
+
+// SettleTransports waits until at most n transport goroutines are left.
+func SettleTransports(n int, timeout time.Duration) ([]Goroutine, bool) {
+	deadline := time.Now().Add(timeout)
+	wait := time.Millisecond
+	for {
+		gs := TransportGoroutines()
+		if len(gs) <= n {
+			return gs, true
+		}
+		if time.Now().After(deadline) {
+			return gs, false
+		}
+		time.Sleep(wait)
+		if wait < 100*time.Millisecond {
+			wait *= 2
+		}
+	}
+}
